@@ -77,10 +77,23 @@ func useV4(p *dhcpv4.DHCPv4, bad *[]string, steps *int) {
 			*bad = append(*bad, s)
 		}
 	}
-	run("NewReplyFromRequest", func() { dhcpv4.NewReplyFromRequest(p) })
-	run("NewRequestFromOffer", func() { dhcpv4.NewRequestFromOffer(p) })
-	run("NewRenewFromAck", func() { dhcpv4.NewRenewFromAck(p) })
-	run("NewReleaseFromACK", func() { dhcpv4.NewReleaseFromACK(p) })
+	// what a builder returns is a message like any other: it is printed and sent
+	built4 := func(q *dhcpv4.DHCPv4, err error) {
+		if err == nil && q != nil {
+			_ = q.Summary()
+			_ = q.String()
+			if r, err := dhcpv4.FromBytes(q.ToBytes()); err == nil {
+				_ = r.Summary()
+			}
+		}
+	}
+	run("NewReplyFromRequest", func() { built4(dhcpv4.NewReplyFromRequest(p)) })
+	run("NewReplyFromRequest+mods", func() {
+		built4(dhcpv4.NewReplyFromRequest(p, dhcpv4.WithMessageType(dhcpv4.MessageTypeOffer), dhcpv4.WithServerIP(net.IPv4(10, 0, 0, 1)), dhcpv4.WithNetboot))
+	})
+	run("NewRequestFromOffer", func() { built4(dhcpv4.NewRequestFromOffer(p)) })
+	run("NewRenewFromAck", func() { built4(dhcpv4.NewRenewFromAck(p)) })
+	run("NewReleaseFromACK", func() { built4(dhcpv4.NewReleaseFromACK(p)) })
 	run("IPAddressLeaseTime", func() { p.IPAddressLeaseTime(0); p.IPAddressRenewalTime(0); p.IPAddressRebindingTime(0) })
 	run("IsOptionRequested", func() { p.IsOptionRequested(dhcpv4.OptionRouter) })
 	run("SummaryWithVendor", func() { p.SummaryWithVendor(nil) })
@@ -112,9 +125,22 @@ func useV6(d dhcpv6.DHCPv6, bad *[]string, steps *int) {
 		for _, o := range m.Options.Options {
 			allReadOnly(bad, steps, fmt.Sprintf("option %d", o.Code()), o)
 		}
-		run("NewAdvertiseFromSolicit", func() { dhcpv6.NewAdvertiseFromSolicit(m) })
-		run("NewRequestFromAdvertise", func() { dhcpv6.NewRequestFromAdvertise(m) })
-		run("NewReplyFromMessage", func() { dhcpv6.NewReplyFromMessage(m) })
+		built6 := func(q *dhcpv6.Message, err error) {
+			if err == nil && q != nil {
+				_ = q.Summary()
+				_ = q.String()
+				q.GetOneOption(dhcpv6.OptionServerID)
+				if r, err := dhcpv6.FromBytes(q.ToBytes()); err == nil {
+					_ = r.Summary()
+				}
+			}
+		}
+		duid := &dhcpv6.DUIDLL{HWType: 1, LinkLayerAddr: net.HardwareAddr{2, 0, 0, 0, 0, 1}}
+		run("NewAdvertiseFromSolicit", func() { built6(dhcpv6.NewAdvertiseFromSolicit(m)) })
+		run("NewAdvertiseFromSolicit+mods", func() { built6(dhcpv6.NewAdvertiseFromSolicit(m, dhcpv6.WithServerID(duid), dhcpv6.WithIANA())) })
+		run("NewRequestFromAdvertise", func() { built6(dhcpv6.NewRequestFromAdvertise(m)) })
+		run("NewReplyFromMessage", func() { built6(dhcpv6.NewReplyFromMessage(m)) })
+		run("NewReplyFromMessage+mods", func() { built6(dhcpv6.NewReplyFromMessage(m, dhcpv6.WithServerID(duid), dhcpv6.WithDNS(net.IPv6loopback))) })
 		run("IsOptionRequested", func() { m.IsOptionRequested(dhcpv6.OptionDNSRecursiveNameServer); m.IsNetboot() })
 		run("netboot.GetNetConfFromPacketv6", func() { netboot.GetNetConfFromPacketv6(m) })
 	}
@@ -124,12 +150,26 @@ func useV6(d dhcpv6.DHCPv6, bad *[]string, steps *int) {
 			allReadOnly(bad, steps, fmt.Sprintf("relay option %d", o.Code()), o)
 		}
 		reply := &dhcpv6.Message{MessageType: dhcpv6.MessageTypeReply}
-		run("NewRelayReplFromRelayForw", func() { dhcpv6.NewRelayReplFromRelayForw(r, reply) })
+		run("NewRelayReplFromRelayForw", func() {
+			if x, err := dhcpv6.NewRelayReplFromRelayForw(r, reply); err == nil && x != nil {
+				_ = x.Summary()
+				x.GetInnerMessage()
+				if y, err := dhcpv6.FromBytes(x.ToBytes()); err == nil {
+					_ = y.Summary()
+				}
+			}
+		})
 	}
-	run("DecapsulateRelay", func() { dhcpv6.DecapsulateRelay(d) })
-	for _, i := range []int{-1, 0, 1, 5, -2} {
+	seen := func(x dhcpv6.DHCPv6, err error) {
+		if err == nil && x != nil {
+			_ = x.Summary()
+			x.ToBytes()
+		}
+	}
+	run("DecapsulateRelay", func() { seen(dhcpv6.DecapsulateRelay(d)) })
+	for _, i := range []int{-1, 0, 1, 5, 31, 32, 33, -2} {
 		ii := i
-		run(fmt.Sprintf("DecapsulateRelayIndex(%d)", ii), func() { dhcpv6.DecapsulateRelayIndex(d, ii) })
+		run(fmt.Sprintf("DecapsulateRelayIndex(%d)", ii), func() { seen(dhcpv6.DecapsulateRelayIndex(d, ii)) })
 	}
 	run("GetInnerMessage", func() { d.GetInnerMessage() })
 	run("GetTransactionID", func() { dhcpv6.GetTransactionID(d) })
